@@ -26,6 +26,10 @@ CLAIMED = {
                 text='== is reflexive, symmetric, holds for deep copies, fails for different kind/rationality/degree/size and for any single component changed by more than the tolerance '
                      '(symbolic eps with |eps| > 1/1000), holds for |eps| < 1e-20.',
                 note=_B_NOTE),
+    'C14': dict(category='other', technique='contracts on the real exporters/importers; per-shape exhaustive symbolic execution (symx) with numbers printed as opaque tokens',
+                text='export followed by import reproduces degrees, knot vectors, sizes, control points, weights, delta and trims and evaluates identically, for the dict/JSON layer, '
+                     'smesh/vmesh files, txt and csv; the written files are also checked line by line against the documented ordering.',
+                note=_B_NOTE + ' A3: float(str(x)) == x; real json / real temp files are used; YAML, cfg and jinja2 paths are not run (packages absent).'),
 }
 
 _TODO = 'check not built yet in this revision (work in progress; see DESIGN.md section 7 for the planned contract)'
